@@ -3,7 +3,7 @@
 use serde_json::Value;
 
 use crate::fw::{Batch, CheckSpec, Tier, drive};
-use crate::{Args, eng_disk, eng_hist, eng_rdf, eng_sched, eng_store, eng_txm};
+use crate::{Args, eng_codec, eng_disk, eng_hist, eng_rdf, eng_sched, eng_store, eng_txm};
 
 const REAL_TXM: &[&str] = &["grafeo_engine::transaction::TransactionManager (all of manager.rs)"];
 
@@ -14,6 +14,7 @@ pub fn run_check(id: &str, args: &Args) -> i32 {
         "C14" => c14(args),
         "C20" => c20(args),
         "C13" => c13(args),
+        "C15" => c15(args),
         "C01" => c_hist(args, "C01"),
         "C02" => c_hist(args, "C02"),
         "C05" => c_disk(args, "C05"),
@@ -274,6 +275,26 @@ fn c13(args: &Args) -> i32 {
     )
 }
 
+fn c15(args: &Args) -> i32 {
+    let thorough = args.tier == Tier::Thorough;
+    let spec = CheckSpec {
+        property: "C15",
+        check_name: "C15",
+        level: "exploration",
+        engine: "CODEC",
+        rule: "two kinds of histories drawn from the run seed: (a) PropertyStorage: set/remove/remove_all of values chosen per run to reach one codec (all-equal ints, increasing ints, i64 extremes, repeated strings, booleans, mixed) interleaved with force_compress_all, compress_all and enable_compression(None) (which decompresses), every get/get_all/get_batch compared with a map after every step; (b) ChunkedAdjacency with chunk capacity 1/2/4/64: add_edge/mark_deleted/compact/compact_if_needed/freeze_all/clear, some runs pushing one list past 64/128/320 entries, every list compared with a multiset model. Non-trivial = a column was compressed or >=4 steps; distinct = distinct (configuration, operation list)".into(),
+        real: vec!["grafeo_core::graph::lpg::PropertyStorage / PropertyColumn (compress_as_integers/strings/booleans, decompress_all)", "TypeSpecificCompressor, DictionaryBuilder, zig-zag/delta/bit-pack/RLE codecs as called from there", "grafeo_core::index::ChunkedAdjacency (AdjacencyChunk, CompressedAdjacencyChunk, delta buffer, tombstones)"],
+        stub: vec![],
+        assumptions: vec!["CompressionMode is not exported by grafeo-core: only force_compress_all (compresses regardless of mode) and enable_compression(key, Default::default() = None) are reachable from outside the crate; Auto/Eager thresholds are therefore not exercised".into()],
+        unchecked: vec![
+            "the first sentence of the statement (round-trip, random access and byte-serialisation laws of each codec over all input sequences) is a pure function of the input: not a simulation target".into(),
+            "succinct structures (cargo feature off)".into(),
+        ],
+    };
+    let batch = Batch { spec, tier: args.tier, seed: args.seed, runs: runs(args, 40_000, 2_000_000), workers: args.workers };
+    drive(batch, &|seed, _i| eng_codec::run_one(seed, thorough), Some(&eng_codec::minimise), &mut |_| {})
+}
+
 pub fn replay_file(path: &str) -> i32 {
     let text = match std::fs::read_to_string(path) {
         Ok(t) => t,
@@ -299,6 +320,7 @@ pub fn replay_file(path: &str) -> i32 {
         Some("SCHED") => eng_sched::replay(rep, &prop),
         Some("HIST") => eng_hist::replay(rep),
         Some("RDF") => eng_rdf::replay(rep),
+        Some("CODEC") => eng_codec::replay(rep),
         other => {
             eprintln!("harness error: unknown engine {other:?} in {path}");
             return 2;
